@@ -94,6 +94,10 @@ def parseRat (s : String) : Option Rat :=
   | _ => none
 
 def parse (s : String) : Option V :=
+  -- `3~`: a composite-like sample of the harness (unequal even to itself, ordered by its number against every other
+  -- value, incomparable with the same number): for the slope / peak classifiers "equal" and "incomparable" are both
+  -- flat, so it is its number there
+  let s := if s.endsWith "~" then String.ofList s.toList.dropLast else s
   if s == "nan" then some nan
   else if s == "PANIC" then some err
   else if s == "-0" then some nz
